@@ -300,6 +300,15 @@ Section DiffFacts.
     flat_map (fun e => if pmem (fst e) seen then []
                        else match getl (snd e) dels0 with [] => [Added (fst e)] | _ => [] end) r.
 
+  Lemma ro_paths_snoc seen r p d d' :
+    ro_paths seen (r ++ [(p, d)]) d' =
+    ro_paths seen r d' ++ (if pmem p seen then [] else if deqb d d' then [p] else []).
+  Proof. unfold ro_paths. rewrite flat_map_app. cbn. rewrite app_nil_r. reflexivity. Qed.
+  Lemma adds_snoc seen dels0 r p d :
+    adds seen dels0 (r ++ [(p, d)]) =
+    adds seen dels0 r ++ (if pmem p seen then [] else match getl d dels0 with [] => [Added p] | _ => [] end).
+  Proof. unfold adds. rewrite flat_map_app. cbn. rewrite app_nil_r. reflexivity. Qed.
+
   Lemma right_loop_spec seen ds0 dels0 r :
     dels_wf dels0 ->
     let '(ds, dels, rens) := right_loop peqb deqb seen r ds0 dels0 in
@@ -318,66 +327,539 @@ Section DiffFacts.
     - rewrite fold_left_app. cbn [fold_left].
       destruct (fold_left (right_step peqb deqb seen) r _) as [[ds dels] rens].
       destruct IH as (Hds & Hdel & Hren & Hnd & Hndr).
-      unfold adds, ro_paths. setoid_rewrite flat_map_app. cbn [flat_map fst snd].
-      fold (adds seen dels0 r). unfold right_step.
+      unfold right_step. rewrite adds_snoc.
       destruct (pmem p seen) eqn:Eseen.
       { (* continue *)
+        lazy iota beta. setoid_rewrite ro_paths_snoc. rewrite Eseen.
         repeat split; try assumption.
         - rewrite app_nil_r. exact Hds.
         - intros d'. rewrite app_nil_r. apply Hdel.
         - intros d'. rewrite app_nil_r. apply Hren. }
-      assert (Hstep : forall d', flat_map (fun e : P * D => if pmem (fst e) seen then [] else if deqb (snd e) d' then [fst e] else []) r
-                                 = ro_paths seen r d') by reflexivity.
       destruct (aget d dels) as [orig|] eqn:Edel.
       + (* deletes.remove(digest) = Some(original) *)
+        lazy iota beta. setoid_rewrite ro_paths_snoc. rewrite Eseen.
         pose proof (Hdel d) as Hd. rewrite Edel in Hd.
         destruct (ro_paths seen r d) eqn:Ero; [|discriminate].
         assert (Horig : getl d dels0 = orig) by (unfold getl; rewrite <- Hd; reflexivity).
         assert (Hne : orig <> []) by (eapply Hne0; symmetry; exact Hd).
         repeat split.
         * rewrite Hds, Horig. destruct orig; [contradiction|]. rewrite app_nil_r. reflexivity.
-        * intros d'. rewrite aget_adel, Hstep. destruct (deqb d d') eqn:E.
+        * intros d'. rewrite aget_adel. destruct (deqb d d') eqn:E.
           -- apply deqb_spec in E. subst d'. rewrite Ero. cbn. reflexivity.
           -- rewrite app_nil_r. apply Hdel.
-        * intros d'. rewrite aget_aset, Hstep. destruct (deqb d d') eqn:E.
+        * intros d'. rewrite aget_aset. destruct (deqb d d') eqn:E.
           -- apply deqb_spec in E. subst d'. rewrite Ero, Horig. cbn. destruct orig; [contradiction|reflexivity].
           -- rewrite app_nil_r. apply Hren.
         * apply akeys_adel, Hnd.
         * apply akeys_aset, Hndr.
       + destruct (aget d rens) as [[o rn]|] eqn:Eren.
         * (* renames.get_mut(digest): push *)
+          lazy iota beta. setoid_rewrite ro_paths_snoc. rewrite Eseen.
           pose proof (Hren d) as Hr. rewrite Eren in Hr.
           destruct (ro_paths seen r d) as [|x xs] eqn:Ero; [discriminate|].
           destruct (getl d dels0) as [|y ys] eqn:Eo; [discriminate|]. inversion Hr. subst o rn.
           repeat split.
           -- rewrite Hds, app_nil_r. reflexivity.
-          -- intros d'. rewrite Hstep. destruct (deqb d d') eqn:E.
+          -- intros d'. destruct (deqb d d') eqn:E.
              ++ apply deqb_spec in E. subst d'. rewrite Ero. cbn. exact Edel.
              ++ rewrite app_nil_r. apply Hdel.
-          -- intros d'. rewrite aget_aset, Hstep. destruct (deqb d d') eqn:E.
+          -- intros d'. rewrite aget_aset. destruct (deqb d d') eqn:E.
              ++ apply deqb_spec in E. subst d'. rewrite Ero, Eo. cbn. reflexivity.
              ++ rewrite app_nil_r. apply Hren.
           -- exact Hnd.
           -- apply akeys_aset, Hndr.
         * (* Added *)
+          lazy iota beta. setoid_rewrite ro_paths_snoc. rewrite Eseen.
           assert (Ho : getl d dels0 = []).
           { pose proof (Hren d) as Hr. rewrite Eren in Hr. pose proof (Hdel d) as Hd. rewrite Edel in Hd.
             destruct (ro_paths seen r d) as [|x xs] eqn:Ero.
             - unfold getl. rewrite <- Hd. reflexivity.
             - destruct (getl d dels0); [reflexivity|discriminate]. }
           repeat split.
-          -- rewrite Hds, Ho, app_nil_r, app_assoc. reflexivity.
-          -- intros d'. rewrite Hstep. destruct (deqb d d') eqn:E.
+          -- rewrite Hds, Ho, app_assoc. reflexivity.
+          -- intros d'. destruct (deqb d d') eqn:E.
              ++ apply deqb_spec in E. subst d'. rewrite Edel.
                 destruct (ro_paths seen r d); cbn; [|reflexivity].
                 unfold getl in Ho. destruct (aget d dels0) as [v|] eqn:E0; [|reflexivity].
                 subst v. exfalso. eapply Hne0; [exact E0|reflexivity].
              ++ rewrite app_nil_r. apply Hdel.
-          -- intros d'. rewrite Hstep. destruct (deqb d d') eqn:E.
+          -- intros d'. destruct (deqb d d') eqn:E.
              ++ apply deqb_spec in E. subst d'. rewrite Eren, Ho.
                 destruct (ro_paths seen r d); reflexivity.
              ++ rewrite app_nil_r. apply Hren.
           -- exact Hnd.
           -- exact Hndr.
+  Qed.
+
+  (** ** membership characterisation *)
+  Definition left_only (l r : state) (q : P) (d : D) : Prop := lookup q l = Some d /\ lookup q r = None.
+  Definition right_only (l r : state) (q : P) (d : D) : Prop := lookup q r = Some d /\ lookup q l = None.
+
+  Lemma flat_map_ext_in' {A B} (f g : A -> list B) l :
+    (forall a, In a l -> f a = g a) -> flat_map f l = flat_map g l.
+  Proof.
+    induction l as [|a l IH]; cbn; [reflexivity|]. intros H.
+    rewrite (H a (or_introl eq_refl)), IH; [reflexivity|]. intros x Hx. apply H. right; exact Hx.
+  Qed.
+
+  Lemma in_lo_paths l r q d : NoDup (keys l) -> (In q (lo_paths r l d) <-> left_only l r q d).
+  Proof.
+    intros ND. unfold lo_paths, left_only. rewrite in_flat_map. split.
+    - intros [[p x] [Hin H]]. cbn [fst snd] in H.
+      destruct (lookup p r) eqn:ER; [destruct H|]. destruct (deqb x d) eqn:E; [|destruct H].
+      destruct H as [H|[]]. subst q. apply deqb_spec in E. subst x.
+      split; [apply in_lookup; assumption|exact ER].
+    - intros [Hl Hr]. exists (q, d). split; [apply lookup_some_in, Hl|].
+      cbn [fst snd]. rewrite Hr, deqb_refl. left; reflexivity.
+  Qed.
+
+  Lemma in_both l r p : In p (both r l) <-> In p (keys l) /\ lookup p r <> None.
+  Proof.
+    unfold both. rewrite in_flat_map. split.
+    - intros [[q x] [Hin H]]. cbn [fst] in H. destruct (lookup q r) eqn:ER; [|destruct H].
+      destruct H as [H|[]]. subst q. split; [eapply in_keys, Hin|congruence].
+    - intros [Hk Hr]. apply in_map_iff in Hk. destruct Hk as [[q x] [Heq Hin]]. cbn in Heq. subst q.
+      exists (p, x). split; [exact Hin|]. cbn [fst]. destruct (lookup p r); [left; reflexivity|contradiction].
+  Qed.
+
+  Lemma seen_false l r seen q x :
+    (forall p, In p seen <-> In p (both r l)) -> In (q, x) r ->
+    pmem q seen = match lookup q l with Some _ => true | None => false end.
+  Proof.
+    intros Hs Hin. destruct (pmem q seen) eqn:E.
+    - apply pmem_spec, Hs, in_both in E. destruct E as [Hk _].
+      apply lookup_in_keys in Hk. destruct Hk as [d' Hk]. rewrite Hk. reflexivity.
+    - apply pmem_false in E. destruct (lookup q l) eqn:EL; [|reflexivity]. exfalso.
+      apply E, Hs, in_both. split; [eapply in_keys, lookup_some_in, EL|].
+      apply in_keys, lookup_in_keys in Hin. destruct Hin as [y Hy]. congruence.
+  Qed.
+
+  Lemma ro_paths_eq l r seen d :
+    (forall p, In p seen <-> In p (both r l)) -> ro_paths seen r d = lo_paths l r d.
+  Proof.
+    intros Hs. unfold ro_paths, lo_paths. apply flat_map_ext_in'. intros [q x] Hin. cbn [fst snd].
+    rewrite (seen_false l r seen q x Hs Hin). destruct (lookup q l); reflexivity.
+  Qed.
+
+  (** the Added entries in terms of the two states only *)
+  Definition adds_spec (l r : state) : list dentry :=
+    flat_map (fun e => match lookup (fst e) l with
+                       | Some _ => []
+                       | None => match lo_paths r l (snd e) with [] => [Added (fst e)] | _ => [] end
+                       end) r.
+
+  Lemma adds_eq l r seen dels0 :
+    (forall p, In p seen <-> In p (both r l)) -> (forall d, getl d dels0 = lo_paths r l d) ->
+    adds seen dels0 r = adds_spec l r.
+  Proof.
+    intros Hs Hd. unfold adds, adds_spec. apply flat_map_ext_in'. intros [q x] Hin. cbn [fst snd].
+    rewrite (seen_false l r seen q x Hs Hin), Hd. destruct (lookup q l); reflexivity.
+  Qed.
+
+  Lemma aget_dels0 dels0 r l d :
+    dels_wf dels0 -> (forall d, getl d dels0 = lo_paths r l d) ->
+    aget d dels0 = match lo_paths r l d with [] => None | v => Some v end.
+  Proof.
+    intros [_ Hne] Hd. specialize (Hd d). unfold getl in Hd.
+    destruct (aget d dels0) as [v|] eqn:E.
+    - subst v. destruct (lo_paths r l d) eqn:E2; [|reflexivity]. exfalso. eapply Hne; [exact E|reflexivity].
+    - rewrite <- Hd. reflexivity.
+  Qed.
+
+  Lemma diff_struct l r :
+    exists dels2 rens,
+      diff peqb deqb ple (Some l) r = flush ple (mods r l ++ adds_spec l r) dels2 rens /\
+      NoDup (map fst dels2) /\ NoDup (map fst rens) /\
+      (forall d, aget d dels2 = match lo_paths l r d, lo_paths r l d with
+                                | [], (_ :: _) as v => Some v
+                                | _, _ => None
+                                end) /\
+      (forall d, aget d rens = match lo_paths l r d, lo_paths r l d with
+                               | (_ :: _) as rn, (_ :: _) as o => Some (o, rn)
+                               | _, _ => None
+                               end).
+  Proof.
+    unfold diff. pose proof (left_loop_spec r l) as HL.
+    destruct (left_loop peqb deqb l r) as [[ds dels] seen].
+    destruct HL as (Hds & Hdel & Hwf & Hseen).
+    pose proof (right_loop_spec seen ds dels r Hwf) as HR.
+    destruct (right_loop peqb deqb seen r ds dels) as [[ds2 dels2] rens].
+    destruct HR as (Hds2 & Hdel2 & Hren & Hnd & Hndr).
+    exists dels2, rens. repeat split; try assumption.
+    - rewrite Hds2, Hds, (adds_eq l r seen dels Hseen Hdel). reflexivity.
+    - intros d. rewrite Hdel2, (ro_paths_eq l r seen d Hseen), (aget_dels0 dels r l d Hwf Hdel).
+      destruct (lo_paths l r d), (lo_paths r l d); reflexivity.
+    - intros d. rewrite Hren, (ro_paths_eq l r seen d Hseen), Hdel.
+      destruct (lo_paths l r d), (lo_paths r l d); reflexivity.
+  Qed.
+
+  Lemma in_flush e ds (dels : list (D * list P)) (rens : list (D * (list P * list P))) :
+    In e (flush ple ds dels rens) <->
+    In e ds \/ (exists k v q, In (k, v) dels /\ In q v /\ e = Deleted q) \/
+    (exists k o rn, In (k, (o, rn)) rens /\ e = Renamed (sort_paths ple o) (sort_paths ple rn)).
+  Proof.
+    unfold flush. rewrite !in_app_iff, in_flat_map, in_map_iff. split.
+    - intros [H|[H|H]].
+      + left; exact H.
+      + right; left. destruct H as [[k v] [Hin H]]. cbn [snd] in H. apply in_map_iff in H.
+        destruct H as [q [Hq Hqv]]. exists k, v, q. repeat split; auto.
+      + right; right. destruct H as [[k [o rn]] [Heq Hin]]. cbn [fst snd] in Heq. exists k, o, rn. split; auto.
+    - intros [H|[H|H]].
+      + left; exact H.
+      + right; left. destruct H as (k & v & q & Hin & Hq & He). exists (k, v). split; [exact Hin|].
+        cbn [snd]. apply in_map_iff. exists q. split; auto.
+      + right; right. destruct H as (k & o & rn & Hin & He). exists (k, (o, rn)). split; [symmetry; exact He|exact Hin].
+  Qed.
+
+  Lemma in_mods l r e : NoDup (keys l) ->
+    (In e (mods r l) <-> exists p dl dr, e = Modified p /\ lookup p l = Some dl /\ lookup p r = Some dr /\ dl <> dr).
+  Proof.
+    intros ND. unfold mods. rewrite in_flat_map. split.
+    - intros [[p x] [Hin H]]. cbn [fst snd] in H. destruct (lookup p r) as [rd|] eqn:ER; [|destruct H].
+      destruct (deqb x rd) eqn:E; [destruct H|]. destruct H as [H|[]].
+      exists p, x, rd. repeat split; [symmetry; exact H|apply in_lookup; assumption|exact ER|apply deqb_false, E].
+    - intros (p & dl & dr & He & Hl & Hr & Hne). exists (p, dl). split; [apply lookup_some_in, Hl|].
+      cbn [fst snd]. rewrite Hr. apply deqb_false in Hne. rewrite Hne. left; symmetry; exact He.
+  Qed.
+
+  Lemma in_adds_spec l r e : NoDup (keys r) ->
+    (In e (adds_spec l r) <-> exists p d, e = Added p /\ right_only l r p d /\ lo_paths r l d = []).
+  Proof.
+    intros ND. unfold adds_spec, right_only. rewrite in_flat_map. split.
+    - intros [[p x] [Hin H]]. cbn [fst snd] in H. destruct (lookup p l) eqn:EL; [destruct H|].
+      destruct (lo_paths r l x) eqn:Elo; [|destruct H]. destruct H as [H|[]].
+      exists p, x. repeat split; [symmetry; exact H|apply in_lookup; assumption|exact EL|exact Elo].
+    - intros (p & d & He & [Hr Hl] & Hlo). exists (p, d). split; [apply lookup_some_in, Hr|].
+      cbn [fst snd]. rewrite Hl, Hlo. left; symmetry; exact He.
+  Qed.
+
+  (** membership in the diff, still phrased with the path lists of one digest *)
+  Lemma diff_in l r e : NoDup (keys l) -> NoDup (keys r) ->
+    (In e (diff peqb deqb ple (Some l) r) <->
+     (exists p dl dr, e = Modified p /\ lookup p l = Some dl /\ lookup p r = Some dr /\ dl <> dr) \/
+     (exists p d, e = Added p /\ right_only l r p d /\ lo_paths r l d = []) \/
+     (exists p d, e = Deleted p /\ left_only l r p d /\ lo_paths l r d = []) \/
+     (exists d, e = Renamed (sort_paths ple (lo_paths r l d)) (sort_paths ple (lo_paths l r d)) /\
+                lo_paths r l d <> [] /\ lo_paths l r d <> [])).
+  Proof.
+    intros NDl NDr. destruct (diff_struct l r) as (dels2 & rens & Heq & Hnd & Hndr & Hdel & Hren).
+    rewrite Heq, in_flush, in_app_iff, (in_mods l r e NDl), (in_adds_spec l r e NDr).
+    split.
+    - intros [[H|H]|[H|H]].
+      + left; exact H.
+      + right; left; exact H.
+      + right; right; left. destruct H as (k & v & q & Hin & Hq & He).
+        apply (in_aget _ _ _ _ Hnd) in Hin. rewrite Hdel in Hin.
+        destruct (lo_paths l r k) eqn:E1; [|discriminate].
+        destruct (lo_paths r l k) eqn:E2; [discriminate|]. inversion Hin. subst v.
+        exists q, k. split; [exact He|split; [|exact E1]]. rewrite <- E2 in Hq. apply (in_lo_paths l r q k NDl), Hq.
+      + right; right; right. destruct H as (k & o & rn & Hin & He).
+        apply (in_aget _ _ _ _ Hndr) in Hin. rewrite Hren in Hin.
+        destruct (lo_paths l r k) eqn:E1; [discriminate|].
+        destruct (lo_paths r l k) eqn:E2; [discriminate|]. inversion Hin. subst o rn.
+        exists k. rewrite E1, E2. split; [exact He|split; discriminate].
+    - intros [H|[H|[H|H]]].
+      + left; left; exact H.
+      + left; right; exact H.
+      + right; left. destruct H as (q & d & He & Hlo & Hro).
+        apply (in_lo_paths l r q d NDl) in Hlo.
+        exists d, (lo_paths r l d), q. split; [|split; [exact Hlo|exact He]].
+        apply aget_in. rewrite Hdel, Hro. destruct (lo_paths r l d); [destruct Hlo|reflexivity].
+      + right; right. destruct H as (d & He & Hlo & Hro).
+        exists d, (lo_paths r l d), (lo_paths l r d). split; [|exact He].
+        apply aget_in. rewrite Hren. destruct (lo_paths l r d); [contradiction|].
+        destruct (lo_paths r l d); [contradiction|reflexivity].
+  Qed.
+
+  Lemma lo_paths_nil l r d : NoDup (keys l) -> (lo_paths r l d = [] <-> ~ exists q, left_only l r q d).
+  Proof.
+    intros ND. split.
+    - intros H [q Hq]. apply (in_lo_paths l r q d ND) in Hq. rewrite H in Hq. destruct Hq.
+    - intros H. destruct (lo_paths r l d) as [|q t] eqn:E; [reflexivity|]. exfalso. apply H. exists q.
+      apply (in_lo_paths l r q d ND). rewrite E. left; reflexivity.
+  Qed.
+
+  Lemma lo_paths_cons l r d : NoDup (keys l) -> (lo_paths r l d <> [] <-> exists q, left_only l r q d).
+  Proof.
+    intros ND. split.
+    - intros H. destruct (lo_paths r l d) as [|q t] eqn:E; [contradiction|]. exists q.
+      apply (in_lo_paths l r q d ND). rewrite E. left; reflexivity.
+    - intros [q Hq] H. apply (in_lo_paths l r q d ND) in Hq. rewrite H in Hq. destruct Hq.
+  Qed.
+
+  Lemma right_left_only l r q d : right_only l r q d <-> left_only r l q d.
+  Proof. unfold right_only, left_only. tauto. Qed.
+
+  (** The characterisation of Version::diff by membership facts about the two states. *)
+  Theorem diff_characterisation l r : NoDup (keys l) -> NoDup (keys r) ->
+    let ds := diff peqb deqb ple (Some l) r in
+    (forall p, In (Added p) ds <->
+               exists d, right_only l r p d /\ ~ exists q, left_only l r q d) /\
+    (forall p, In (Modified p) ds <->
+               exists dl dr, lookup p l = Some dl /\ lookup p r = Some dr /\ dl <> dr) /\
+    (forall p, In (Deleted p) ds <->
+               exists d, left_only l r p d /\ ~ exists q, right_only l r q d) /\
+    (forall O R, In (Renamed O R) ds ->
+               exists d, O <> [] /\ R <> [] /\ NoDup O /\ NoDup R /\
+                         (forall q, In q O <-> left_only l r q d) /\
+                         (forall q, In q R <-> right_only l r q d)) /\
+    (forall d, (exists q, left_only l r q d) -> (exists q, right_only l r q d) ->
+               exists O R, In (Renamed O R) ds /\
+                           (forall q, In q O <-> left_only l r q d) /\
+                           (forall q, In q R <-> right_only l r q d)).
+  Proof.
+    intros NDl NDr ds. subst ds.
+    assert (NDlo : forall (a c : state) x, NoDup (keys a) -> NoDup (lo_paths c a x)).
+    { intros a c x. unfold lo_paths. induction a as [|[q y] a IH]; cbn; [constructor|].
+      intros ND. inversion ND as [|z zs NI ND']. subst.
+      destruct (lookup q c); [apply IH, ND'|]. destruct (deqb y x); [|apply IH, ND'].
+      cbn. constructor; [|apply IH, ND']. intros Hin. apply NI.
+      apply in_flat_map in Hin. destruct Hin as [[q' y'] [Hin Hq]]. cbn [fst snd] in Hq.
+      destruct (lookup q' c); [destruct Hq|]. destruct (deqb y' x); [|destruct Hq].
+      destruct Hq as [Hq|[]]. subst q'. eapply in_keys, Hin. }
+    assert (HO : forall d q, In q (sort_paths ple (lo_paths r l d)) <-> left_only l r q d).
+    { intros d q. rewrite sort_paths_in. apply in_lo_paths, NDl. }
+    assert (HR : forall d q, In q (sort_paths ple (lo_paths l r d)) <-> right_only l r q d).
+    { intros d q. rewrite sort_paths_in, right_left_only. apply in_lo_paths, NDr. }
+    split; [|split; [|split; [|split]]].
+    - intros p. split.
+      + intros H. apply (diff_in l r _ NDl NDr) in H.
+        destruct H as [(q & dl & dr & He & _)|[(q & d & He & Hro & Hlo)|[(q & d & He & _)|(d & He & _)]]];
+          try discriminate.
+        inversion He. subst q. exists d. split; [exact Hro|]. apply (lo_paths_nil l r d NDl), Hlo.
+      + intros (d & Hro & Hlo). apply (diff_in l r _ NDl NDr). right; left.
+        exists p, d. split; [reflexivity|split; [exact Hro|]]. apply (lo_paths_nil l r d NDl), Hlo.
+    - intros p. split.
+      + intros H. apply (diff_in l r _ NDl NDr) in H.
+        destruct H as [(q & dl & dr & He & H)|[(q & d & He & _)|[(q & d & He & _)|(d & He & _)]]];
+          try discriminate.
+        inversion He. subst q. exists dl, dr. exact H.
+      + intros (dl & dr & H). apply (diff_in l r _ NDl NDr). left. exists p, dl, dr. split; [reflexivity|exact H].
+    - intros p. split.
+      + intros H. apply (diff_in l r _ NDl NDr) in H.
+        destruct H as [(q & dl & dr & He & _)|[(q & d & He & _)|[(q & d & He & Hlo & Hro)|(d & He & _)]]];
+          try discriminate.
+        inversion He. subst q. exists d. split; [exact Hlo|].
+        intros [q Hq]. apply right_left_only in Hq. apply (lo_paths_nil r l d NDr) in Hro. apply Hro. exists q; exact Hq.
+      + intros (d & Hlo & Hro). apply (diff_in l r _ NDl NDr). right; right; left.
+        exists p, d. split; [reflexivity|split; [exact Hlo|]]. apply (lo_paths_nil r l d NDr).
+        intros [q Hq]. apply Hro. exists q. apply right_left_only, Hq.
+    - intros O R H. apply (diff_in l r _ NDl NDr) in H.
+      destruct H as [(q & dl & dr & He & _)|[(q & d & He & _)|[(q & d & He & _)|(d & He & Hlo & Hro)]]];
+        try discriminate.
+      inversion He. subst O R. exists d.
+      split; [rewrite sort_paths_nil; exact Hlo|].
+      split; [rewrite sort_paths_nil; exact Hro|].
+      split; [apply sort_paths_nodup, NDlo, NDl|].
+      split; [apply sort_paths_nodup, NDlo, NDr|].
+      split; [apply HO|apply HR].
+    - intros d Hlo Hro.
+      exists (sort_paths ple (lo_paths r l d)), (sort_paths ple (lo_paths l r d)).
+      split; [|split; [apply HO|apply HR]].
+      apply (diff_in l r _ NDl NDr). right; right; right. exists d.
+      split; [reflexivity|split].
+      + apply (lo_paths_cons l r d NDl), Hlo.
+      + apply (lo_paths_cons r l d NDr). destruct Hro as [q Hq]. exists q. apply right_left_only, Hq.
+  Qed.
+
+  (** ** applying the report *)
+  Lemma in_removed (ds : list dentry) p :
+    In p (removed ds) <-> In (Deleted p) ds \/ exists O R, In (Renamed O R) ds /\ In p O.
+  Proof.
+    unfold removed. rewrite in_flat_map. split.
+    - intros [e [Hin H]]. destruct e as [q|q|q|O R].
+      + destruct H.
+      + destruct H.
+      + left. destruct H as [H|[]]. subst q. exact Hin.
+      + right. exists O, R. split; assumption.
+    - intros [H|(O & R & Hin & Hp)].
+      + exists (Deleted p). split; [exact H|left; reflexivity].
+      + exists (Renamed O R). split; assumption.
+  Qed.
+
+  Lemma in_inserted (ds : list dentry) p :
+    In p (inserted ds) <-> In (Added p) ds \/ exists O R, In (Renamed O R) ds /\ In p R.
+  Proof.
+    unfold inserted. rewrite in_flat_map. split.
+    - intros [e [Hin H]]. destruct e as [q|q|q|O R].
+      + left. destruct H as [H|[]]. subst q. exact Hin.
+      + destruct H.
+      + destruct H.
+      + right. exists O, R. split; assumption.
+    - intros [H|(O & R & Hin & Hp)].
+      + exists (Added p). split; [exact H|left; reflexivity].
+      + exists (Renamed O R). split; assumption.
+  Qed.
+
+  Lemma left_only_dec l r d : NoDup (keys l) ->
+    (exists q, left_only l r q d) \/ ~ (exists q, left_only l r q d).
+  Proof.
+    intros ND. destruct (lo_paths r l d) eqn:E.
+    - right. apply (lo_paths_nil l r d ND), E.
+    - left. apply (lo_paths_cons l r d ND). rewrite E. discriminate.
+  Qed.
+
+  Lemma right_only_dec l r d : NoDup (keys r) ->
+    (exists q, right_only l r q d) \/ ~ (exists q, right_only l r q d).
+  Proof.
+    intros ND. destruct (left_only_dec r l d ND) as [[q H]|H].
+    - left. exists q. apply right_left_only, H.
+    - right. intros [q Hq]. apply H. exists q. apply right_left_only, Hq.
+  Qed.
+
+  Lemma removed_diff l r p : NoDup (keys l) -> NoDup (keys r) ->
+    (In p (removed (diff peqb deqb ple (Some l) r)) <-> exists d, left_only l r p d).
+  Proof.
+    intros NDl NDr. destruct (diff_characterisation l r NDl NDr) as (HA & HM & HD & HR1 & HR2).
+    rewrite in_removed. split.
+    - intros [H|(O & R & Hin & Hp)].
+      + apply HD in H. destruct H as (d & H & _). exists d; exact H.
+      + destruct (HR1 O R Hin) as (d & _ & _ & _ & _ & HO & _). exists d. apply HO, Hp.
+    - intros [d Hl]. destruct (right_only_dec l r d NDr) as [Hr|Hr].
+      + right. destruct (HR2 d (ex_intro _ p Hl) Hr) as (O & R & Hin & HO & _).
+        exists O, R. split; [exact Hin|apply HO, Hl].
+      + left. apply HD. exists d. split; assumption.
+  Qed.
+
+  Lemma inserted_diff l r p : NoDup (keys l) -> NoDup (keys r) ->
+    (In p (inserted (diff peqb deqb ple (Some l) r)) <-> exists d, right_only l r p d).
+  Proof.
+    intros NDl NDr. destruct (diff_characterisation l r NDl NDr) as (HA & HM & HD & HR1 & HR2).
+    rewrite in_inserted. split.
+    - intros [H|(O & R & Hin & Hp)].
+      + apply HA in H. destruct H as (d & H & _). exists d; exact H.
+      + destruct (HR1 O R Hin) as (d & _ & _ & _ & _ & _ & HR). exists d. apply HR, Hp.
+    - intros [d Hr]. destruct (left_only_dec l r d NDl) as [Hl|Hl].
+      + right. destruct (HR2 d Hl (ex_intro _ p Hr)) as (O & R & Hin & _ & HR).
+        exists O, R. split; [exact Hin|apply HR, Hr].
+      + left. apply HA. exists d. split; assumption.
+  Qed.
+
+  Theorem diff_apply l r : NoDup (keys l) -> NoDup (keys r) ->
+    forall p, In p (apply_diff peqb (diff peqb deqb ple (Some l) r) (keys l)) <-> In p (keys r).
+  Proof.
+    intros NDl NDr p. unfold apply_diff. rewrite in_app_iff, filter_In, negb_true_iff, pmem_false.
+    rewrite (removed_diff l r p NDl NDr), (inserted_diff l r p NDl NDr). unfold left_only, right_only.
+    rewrite !lookup_in_keys. split.
+    - intros [[[d Hl] Hn]|[d [Hr _]]].
+      + destruct (lookup p r) as [x|] eqn:E; [exists x; reflexivity|].
+        exfalso. apply Hn. exists d. split; [exact Hl|reflexivity].
+      + exists d; exact Hr.
+    - intros [d Hr]. destruct (lookup p l) as [x|] eqn:E.
+      + left. split; [exists x; reflexivity|]. intros [y [_ Hy]]. congruence.
+      + right. exists d. split; [exact Hr|reflexivity].
+  Qed.
+
+  (** applying an empty report changes nothing *)
+  Lemma apply_diff_nil ps : apply_diff peqb [] ps = ps.
+  Proof.
+    unfold apply_diff. cbn. rewrite app_nil_r. induction ps as [|a ps IH]; cbn; [reflexivity|]. rewrite IH. reflexivity.
+  Qed.
+
+  (** ** a state diffed with itself *)
+  Theorem diff_self_nil s : NoDup (keys s) -> diff peqb deqb ple (Some s) s = [].
+  Proof.
+    intros ND. destruct (diff_characterisation s s ND ND) as (HA & HM & HD & HR1 & _).
+    destruct (diff peqb deqb ple (Some s) s) as [|e t] eqn:E; [reflexivity|]. exfalso.
+    destruct e as [p|p|p|O R].
+    - destruct (proj1 (HA p) (or_introl eq_refl)) as (d & [H1 H2] & _). congruence.
+    - destruct (proj1 (HM p) (or_introl eq_refl)) as (dl & dr & H1 & H2 & H3). congruence.
+    - destruct (proj1 (HD p) (or_introl eq_refl)) as (d & [H1 H2] & _). congruence.
+    - destruct (HR1 O R (or_introl eq_refl)) as (d & HO & _ & _ & _ & HO' & _).
+      destruct O as [|q O1]; [contradiction|]. destruct (proj1 (HO' q) (or_introl eq_refl)) as [H1 H2]. congruence.
+  Qed.
+
+  (** ** independence of the iteration order *)
+  Definition entry_equiv (e e' : dentry) : Prop :=
+    match e, e' with
+    | Added p, Added p' => p = p'
+    | Modified p, Modified p' => p = p'
+    | Deleted p, Deleted p' => p = p'
+    | Renamed o1 r1, Renamed o2 r2 => (forall q, In q o1 <-> In q o2) /\ (forall q, In q r1 <-> In q r2)
+    | _, _ => False
+    end.
+  Definition diff_incl (a c : list dentry) : Prop :=
+    forall e, In e a -> exists e', In e' c /\ entry_equiv e e'.
+  Definition diff_equiv (a c : list dentry) : Prop := diff_incl a c /\ diff_incl c a.
+
+  Lemma diff_ext_half l r l' r' :
+    NoDup (keys l) -> NoDup (keys r) -> NoDup (keys l') -> NoDup (keys r') ->
+    (forall p, lookup p l = lookup p l') -> (forall p, lookup p r = lookup p r') ->
+    diff_incl (diff peqb deqb ple (Some l) r) (diff peqb deqb ple (Some l') r').
+  Proof.
+    intros NDl NDr NDl' NDr' Hl Hr.
+    destruct (diff_characterisation l r NDl NDr) as (HA & HM & HD & HR1 & HR2).
+    destruct (diff_characterisation l' r' NDl' NDr') as (HA' & HM' & HD' & HR1' & HR2').
+    assert (Hlo : forall q d, left_only l r q d <-> left_only l' r' q d)
+      by (intros q d; unfold left_only; rewrite Hl, Hr; tauto).
+    assert (Hro : forall q d, right_only l r q d <-> right_only l' r' q d)
+      by (intros q d; unfold right_only; rewrite Hl, Hr; tauto).
+    intros e Hin. destruct e as [p|p|p|O R].
+    - exists (Added p). split; [|reflexivity]. apply HA'. apply HA in Hin. destruct Hin as (d & H1 & H2).
+      exists d. split; [apply Hro, H1|]. intros [q Hq]. apply H2. exists q. apply Hlo, Hq.
+    - exists (Modified p). split; [|reflexivity]. apply HM'. apply HM in Hin. rewrite <- Hl, <- Hr. exact Hin.
+    - exists (Deleted p). split; [|reflexivity]. apply HD'. apply HD in Hin. destruct Hin as (d & H1 & H2).
+      exists d. split; [apply Hlo, H1|]. intros [q Hq]. apply H2. exists q. apply Hro, Hq.
+    - destruct (HR1 O R Hin) as (d & HO & HR & _ & _ & HO' & HR').
+      destruct O as [|qo O0] eqn:EO; [contradiction|]. destruct R as [|qr R0] eqn:ER; [contradiction|].
+      rewrite <- EO in *. rewrite <- ER in *.
+      assert (H1 : exists q, left_only l' r' q d).
+      { exists qo. apply Hlo, HO'. rewrite EO. left; reflexivity. }
+      assert (H2 : exists q, right_only l' r' q d).
+      { exists qr. apply Hro, HR'. rewrite ER. left; reflexivity. }
+      destruct (HR2' d H1 H2) as (O' & R' & Hin' & HO'' & HR'').
+      exists (Renamed O' R'). split; [exact Hin'|]. cbn. split; intros q.
+      + rewrite HO', HO'', Hlo. reflexivity.
+      + rewrite HR', HR'', Hro. reflexivity.
+  Qed.
+
+  Theorem diff_ext l r l' r' :
+    NoDup (keys l) -> NoDup (keys r) -> NoDup (keys l') -> NoDup (keys r') ->
+    (forall p, lookup p l = lookup p l') -> (forall p, lookup p r = lookup p r') ->
+    diff_equiv (diff peqb deqb ple (Some l) r) (diff peqb deqb ple (Some l') r').
+  Proof.
+    intros NDl NDr NDl' NDr' Hl Hr. split.
+    - apply diff_ext_half; assumption.
+    - apply diff_ext_half; try assumption; intros p; symmetry; [apply Hl|apply Hr].
+  Qed.
+
+  Lemma keys_perm (s s' : state) : Permutation s s' -> Permutation (keys s) (keys s').
+  Proof. apply Permutation_map. Qed.
+
+  Lemma lookup_perm (s s' : state) : Permutation s s' -> NoDup (keys s) -> forall p, lookup p s = lookup p s'.
+  Proof.
+    intros HP ND p. assert (ND' : NoDup (keys s')) by (eapply Permutation_NoDup; [apply keys_perm, HP|exact ND]).
+    destruct (lookup p s) as [d|] eqn:E.
+    - symmetry. apply in_lookup; [exact ND'|]. eapply Permutation_in; [exact HP|]. apply lookup_some_in, E.
+    - symmetry. apply lookup_none. intros H. apply lookup_none in E. apply E.
+      eapply Permutation_in; [apply Permutation_sym, keys_perm, HP|exact H].
+  Qed.
+
+  (** The HashMap iteration orders do not matter: for all permutations of the two
+      states the reports are equal as sets (Renamed compared as a pair of sets). *)
+  Theorem diff_order_independent l r l' r' :
+    NoDup (keys l) -> NoDup (keys r) -> Permutation l l' -> Permutation r r' ->
+    diff_equiv (diff peqb deqb ple (Some l) r) (diff peqb deqb ple (Some l') r') /\
+    diff_equiv (diff peqb deqb ple None r) (diff peqb deqb ple None r').
+  Proof.
+    intros NDl NDr Pl Pr. split.
+    - apply diff_ext; try assumption.
+      + eapply Permutation_NoDup; [apply keys_perm, Pl|exact NDl].
+      + eapply Permutation_NoDup; [apply keys_perm, Pr|exact NDr].
+      + apply lookup_perm; assumption.
+      + apply lookup_perm; assumption.
+    - cbn [diff]. split; intros e Hin; apply in_map_iff in Hin; destruct Hin as [[p d] [He Hin]]; subst e;
+        exists (Added p); (split; [|reflexivity]); apply in_map_iff; exists (p, d); (split; [reflexivity|]).
+      + eapply Permutation_in; [exact Pr|exact Hin].
+      + eapply Permutation_in; [apply Permutation_sym, Pr|exact Hin].
+  Qed.
+
+  (** with no left version everything is an Add *)
+  Lemma diff_none_in r e : In e (diff peqb deqb ple None r) <-> exists p, e = Added p /\ In p (keys r).
+  Proof.
+    cbn [diff]. rewrite in_map_iff. split.
+    - intros [[p d] [He Hin]]. exists p. split; [symmetry; exact He|eapply in_keys, Hin].
+    - intros [p [He Hin]]. apply in_map_iff in Hin. destruct Hin as [[q d] [Hq Hin]]. cbn in Hq. subst q.
+      exists (p, d). split; [symmetry; exact He|exact Hin].
   Qed.
 End DiffFacts.
